@@ -34,6 +34,7 @@ class blockiterator(object):
         P = BytesIO(m)
         Pi = P.read(self.blocklen)
         bitcnt = 0
+        nc = 0
         start = self.bitcnt
         while len(Pi)==self.blocklen:
             nc = bitcnt + self.blocksize
@@ -54,7 +55,7 @@ class blockiterator(object):
         else:
             assert nc==bitlen
             self.bitcnt = start+nc
-            yield Pi
+            if nc>0: yield Pi
         P.close()
     @property
     def new(self):
